@@ -12,10 +12,11 @@ COQ_PRELUDE = ""
 RULE = ("a case is a layer script (the commands the top layer answers to its n-th event: OpenConnection to one of 3 addresses "
         "or to no address, CloseConnection, half-close, SendData, StartHook, Log) plus <=30 action intents (complete a pending "
         "hook with/without kill, deliver data/EOF/OSError to a pending read, complete a pending connect ok/refused, idle "
-        "timeout, break a writer); the real ConnectionHandler runs on a real asyncio loop with fake streams, every await "
+        "timeout, break a writer, put a writer above its high-water mark so that drain() blocks, complete a blocked drain ok/OSError); the real ConnectionHandler runs on a real asyncio loop with fake streams, every await "
         "point is a harness future, and the order in which the loop stepped the tasks is recorded and replayed by the model. "
-        "An epilogue completes pending hooks and times the client out so handle_client finishes. 30% of cases are built "
-        "around a burst of 6-8 opens to one address, 20% cancel/close-heavy. Non-trivial = at least one upstream attempt "
+        "An epilogue completes pending hooks and times the client out so handle_client finishes. 25% of cases are built "
+        "around a burst of 6-8 opens to one address, 17% cancel/close-heavy, 25% write backpressure (congested writers, handlers "
+        "blocked in drain_writers or queued on its lock when cancellations arrive). Non-trivial = at least one upstream attempt "
         "reached server_connect and handle_client finished; distinct by canonical JSON.")
 TRUSTED = ["Coq 8.16.1 kernel; vm_compute for case evaluation",
            "hand model of ConnectionHandler (handle_client, open_connection, handle_connection, close_connection, hook_task, "
@@ -24,7 +25,8 @@ TRUSTED = ["Coq 8.16.1 kernel; vm_compute for case evaluation",
            "fake StreamReader/StreamWriter/asyncio.open_connection; scripted top layer",
            "byte encoding of cases (harness coq_case) and its decoder (Corr/C09.v decode; any decoding failure counts as a disagreement)"]
 ASSUMPTIONS = ["the model lets ANY ready task run next; the real loop is FIFO, so theorems cover a superset of CPython schedules",
-               "writer.drain() never suspends in the harness (it returns or raises OSError at once): interleavings inside drain_writers are not explored",
+               "writer.drain() is an await point: a congested fake writer blocks in drain() until the schedule completes it (ok / OSError) "
+               "or the task is cancelled; self._drain_lock (asyncio.Lock 3.12) is modelled with its FIFO waiters",
                "handle_client itself is never cancelled from outside; RequestWakeup timers, UDP transports, eager task factories, "
                "garbage collection of unreferenced tasks and real socket errors are outside the model",
                "a cancellation that arrives while a task is inside asyncio.open_connection is treated as atomic (asyncio cleans its own socket)"]
